@@ -1018,5 +1018,50 @@ def rule_queue_items(ctx):
 
 
 
+
+def rule_transport_errors_come_from_transports(ctx):
+    """C12.p  The receive loop has two kinds of failure: a transport error ends the connection (it is re-raised past
+    the per-frame containment and the close sequence runs), anything else raised while a frame is handled is answered
+    with an ERROR on the offending stream.  Which branch an exception takes is decided by its class, so the class
+    hierarchy is part of the containment: RSocketTransportError and its subclasses are raised by the transport layer
+    only (rsocket.transports.*, wrap_transport_exception, _close_transport) - an exception that the frame-handling code
+    raises for what the peer sent (a fragment of another type, an id in use, an unknown frame type) must not be one."""
+    rep = ctx.report
+    repo = ctx.repo
+    base = repo.cls('rsocket.exceptions:RSocketTransportError')
+    if base is None:
+        raise AnalysisError('C12.p: RSocketTransportError vanished')
+    n = 0
+    bad = []
+    for f in repo.all_functions():
+        mod = f.module.name
+        if not mod.startswith('rsocket.') or mod.startswith(('rsocket.cli', 'rsocket.transports')):
+            continue
+        if f.name in ('wrap_transport_exception', '_close_transport'):
+            continue
+        for r in walk_local(f.node):
+            if not isinstance(r, ast.Raise) or r.exc is None:
+                continue
+            e = r.exc.func if isinstance(r.exc, ast.Call) else r.exc
+            if not isinstance(e, ast.Name):
+                continue
+            k = repo.resolve_name(f.module, e.id)
+            if not isinstance(k, ClassInfo):
+                continue
+            n += 1
+            if k is base or k.is_subclass_of(base):
+                bad.append((f, r, k))
+    rep.require('C12.p', 'explicit raises of library exception classes outside the transports', n, 12)
+    for f, r, k in bad:
+        rep.bad('C12.p', '%s / raises %s' % (f.short, k.name), f,
+                'line %d: %s is a transport error: raised while a frame of the peer is handled it takes the branch of '
+                'the receive loop that ends the connection instead of being answered with an ERROR on that stream'
+                % (r.lineno, k.name))
+    if not bad:
+        rep.ok('C12.p', 'exception hierarchy / transport errors are raised by the transport layer only', base,
+               '%d raise sites outside the transports, none of a transport error class' % n)
+
+
+
 RULES = [('C12.a', rule_a), ('C12.b', rule_b), ('C12.c', rule_c), ('C12.d', rule_d), ('C12.e', rule_e),
-         ('C12.f', rule_f), ('C14.f', rule_g), ('C12.b', rule_h), ('C13.d', rule_i), ('C12.g', rule_j), ('C12.h', rule_k), ('C12.i', rule_l), ('C12.j', rule_m), ('C12.k', rule_exception_text), ('C12.l', rule_error_conversion), ('C02.h', rule_decoder_entry), ('C12.m', rule_empty_messages), ('C04.j', rule_marker_queues), ('C12.n', rule_future_inspection), ('C04.l', rule_short_fields_fail), ('C12.o', rule_error_codes_are_members), ('C04.m', rule_queue_items)]
+         ('C12.f', rule_f), ('C14.f', rule_g), ('C12.b', rule_h), ('C13.d', rule_i), ('C12.g', rule_j), ('C12.h', rule_k), ('C12.i', rule_l), ('C12.j', rule_m), ('C12.k', rule_exception_text), ('C12.l', rule_error_conversion), ('C02.h', rule_decoder_entry), ('C12.m', rule_empty_messages), ('C04.j', rule_marker_queues), ('C12.n', rule_future_inspection), ('C04.l', rule_short_fields_fail), ('C12.o', rule_error_codes_are_members), ('C04.m', rule_queue_items), ('C12.p', rule_transport_errors_come_from_transports)]
